@@ -47,6 +47,11 @@ properties of its resolved default specifier, in dictionary order) and `cls._fin
 structure ClassInfo where
   defaults : List (String × List String)
   finals : List String
+  /-- Not a property of the class but of the resolution code (carried here for convenience; the driver
+  sets it from `Gen/SpecTable.lean`): does `dfs` visit, for a modifying specifier, the specifiers of *all*
+  the properties it modifies (`true`), or only of the last one, as the dictionary comprehension
+  `modifying_inv = {spec: prop ...}` of the source does (`false`)? -/
+  orderAllModified : Bool := false
 deriving DecidableEq, Repr, Inhabited
 
 /-- Identity of a specifier object during one resolution.  After the duplicate-name check user
@@ -175,17 +180,19 @@ def depsOf (C : ClassInfo) (S : List Spec) : Node → List String
 def modInv (modifier : List (String × Node)) (n : Node) : Option String :=
   modifier.foldl (fun acc pm => if pm.2 = n then some pm.1 else acc) none
 
+/-- The properties whose specifiers `dfs` visits for a modifying specifier (`modifying_inv[spec]`). -/
+def modProps (all : Bool) (modifier : List (String × Node)) (n : Node) : List String :=
+  if all then (modifier.filter (fun pm => pm.2 = n)).map (·.1) else (modInv modifier n).toList
+
 /-- The successive `child` look-ups made by `dfs(spec)`: one per required property
 (`modifying.get(dep)` or else `properties.get(dep)`; `none` = "is not specified"), then, for a
-specifier that modifies a property, the specifier of that property. -/
-def steps (depsOf : Node → List String) (assign modifier : List (String × Node)) (n : Node) :
+specifier that modifies properties, the specifiers of those properties. -/
+def steps (all : Bool) (depsOf : Node → List String) (assign modifier : List (String × Node)) (n : Node) :
     List (Option Node) :=
   (depsOf n).map (fun dep => match get modifier dep with
     | some m => some m
     | none => get assign dep)
-  ++ (match modInv modifier n with
-      | some p => [get assign p]
-      | none => [])
+  ++ (modProps all modifier n).map (fun p => get assign p)
 
 /-- `spec._dfs_state` for every specifier, and `order`. -/
 structure DState where
@@ -232,7 +239,18 @@ deriving DecidableEq, Repr, Inhabited
 
 def userNodes (S : List Spec) : List Node := S.map (fun s => Node.user s.name)
 
-def resolve (C : ClassInfo) (S : List Spec) : Except Err Outcome :=
+/-- The result of the two priority passes and of adding the defaults. -/
+structure Pre where
+  /-- `properties` -/
+  assign : List (String × Node)
+  /-- `modifying` -/
+  modifier : List (String × Node)
+  /-- `specifiers` after the defaults were appended -/
+  nodes : List Node
+deriving DecidableEq, Repr, Inhabited
+
+/-- Everything before the topological sort: duplicate names, normal pass, modifying pass, defaults. -/
+def assignPhase (C : ClassInfo) (S : List Spec) : Except Err Pre :=
   if hasDup (S.map (·.name)) then .error .dupName
   else
     match normalPass C.finals (S.filter (fun s => !s.modifying)) ⟨[], []⟩ with
@@ -242,12 +260,26 @@ def resolve (C : ClassInfo) (S : List Spec) : Except Err Outcome :=
       | .error e => .error e
       | .ok ms =>
         let da := addDefaults ms.props C.defaults (ms.props.map (fun e => (e.1, e.2.1))) []
-        let assign := da.1
-        let nodes := userNodes S ++ da.2
-        let stp := steps (depsOf C S) assign ms.modifying
-        match visitAll (dfs stp nodes.length) (nodes.map some) ⟨fun _ => 0, []⟩ with
-        | .error e => .error e
-        | .ok d => .ok ⟨assign, ms.modifying, nodes, d.order⟩
+        .ok ⟨da.1, ms.modifying, userNodes S ++ da.2⟩
+
+/-- The look-ups of `dfs` for the dictionaries computed by `assignPhase`. -/
+def stepsOf (C : ClassInfo) (S : List Spec) (pre : Pre) : Node → List (Option Node) :=
+  steps C.orderAllModified (depsOf C S) pre.assign pre.modifier
+
+/-- The topological sort: `for spec in specifiers: dfs(spec)`. The recursion depth of the source is
+bounded by the number of specifiers (`Scenic.C06.resolve_never_fuel`). -/
+def orderPhase (C : ClassInfo) (S : List Spec) (pre : Pre) : Except Err (List Node) :=
+  match visitAll (dfs (stepsOf C S pre) (pre.nodes.length + 1)) (pre.nodes.map some) ⟨fun _ => 0, []⟩ with
+  | .error e => .error e
+  | .ok d => .ok d.order
+
+def resolve (C : ClassInfo) (S : List Spec) : Except Err Outcome :=
+  match assignPhase C S with
+  | .error e => .error e
+  | .ok pre =>
+    match orderPhase C S pre with
+    | .error e => .error e
+    | .ok order => .ok ⟨pre.assign, pre.modifier, pre.nodes, order⟩
 
 /-- The evaluation trace: for each specifier in evaluation order, the properties it sets
 (`for spec in order: ... for prop in actual_props[spec]: cls._specify(context, prop, value)`). -/
@@ -342,6 +374,65 @@ def mergeDefaults (mro : List ClassDecl) : Option Merged :=
   mergeLoop (collectDefs mro []) ⟨[], [], []⟩
 
 def Merged.toClassInfo (m : Merged) : ClassInfo :=
-  ⟨m.defaults.map (fun e => (e.1, e.2.deps)), m.finals⟩
+  { defaults := m.defaults.map (fun e => (e.1, e.2.deps)), finals := m.finals }
+
+/-! ## The table of built-in specifiers (data generated into `Gen/SpecTable.lean`) -/
+
+/-- One specifier function of `veneer.py` and argument-kind variant, as extracted from the source. -/
+structure BuiltinEntry where
+  /-- `<function>/<variant>` -/
+  key : String
+  /-- title of the section of `docs/reference/specifiers.rst` that documents it -/
+  doc : String
+  /-- whether the conditional bullets ("if the region has a preferred orientation") apply -/
+  cond : Bool
+  /-- the dependencies also include those of the argument value (`facing <value>`) -/
+  valueDeps : Bool
+  /-- the descriptor; `$prop` stands for the property argument of `with` -/
+  spec : Spec
+deriving DecidableEq, Repr, Inhabited
+
+/-- One "Specifies / Dependencies" block of the reference. -/
+structure DocEntry where
+  title : String
+  /-- property, priority, is the bullet conditional -/
+  specifies : List (String × Nat × Bool)
+  deps : List String
+  modifies : List String
+deriving DecidableEq, Repr, Inhabited
+
+/-- properties whose name starts with an underscore are internal (not part of the reference) -/
+def isPublic (p : String) : Bool :=
+  match p.toList with
+  | '_' :: _ => false
+  | _ => true
+
+/-- what the reference says about a variant -/
+def DocEntry.view (d : DocEntry) (cond : Bool) : List (String × Nat) × List String × List String :=
+  ((d.specifies.filter (fun e => cond || !e.2.2)).map (fun e => (e.1, e.2.1)), d.deps, d.modifies)
+
+/-- what the code does, restricted to public properties -/
+def BuiltinEntry.view (e : BuiltinEntry) : List (String × Nat) × List String × List String :=
+  (e.spec.prios.filter (fun pk => isPublic pk.1), e.spec.deps, e.spec.modifiable)
+
+/-- same elements, whatever the order (dictionary / bullet order is immaterial) -/
+def sameElems {α} [BEq α] (a b : List α) : Bool :=
+  a.length == b.length && a.all (b.contains ·) && b.all (a.contains ·)
+
+/-- the entry agrees with its documentation section -/
+def BuiltinEntry.matchesDoc (docs : List DocEntry) (e : BuiltinEntry) : Bool :=
+  match docs.find? (fun d => d.title = e.doc) with
+  | some d =>
+    sameElems (d.view e.cond).1 e.view.1 && sameElems (d.view e.cond).2.1 e.view.2.1 &&
+    sameElems (d.view e.cond).2.2 e.view.2.2 && (e.spec.modifying = !d.modifies.isEmpty)
+  | none => false
+
+/-- instantiate a table entry: `prop` replaces `$prop` (for `with`), `extra` are the dependencies
+contributed by the argument value (already merged and sorted by the caller's `requiredProperties`) -/
+def BuiltinEntry.inst (e : BuiltinEntry) (prop : String) (extra : List String) : Spec :=
+  { e.spec with
+    name := if e.spec.name = "With($prop)" then "With(" ++ prop ++ ")" else e.spec.name
+    prios := e.spec.prios.map (fun pk => (if pk.1 = "$prop" then prop else pk.1, pk.2))
+    deps := sortDedup (e.spec.deps ++ extra) }
 
 end Scenic.Spec
